@@ -361,6 +361,80 @@ def history_run(progs, profile, warm):
     return [first, again, cmp_first, cmp_left, cmp_final]
 
 
+def threads_derive(bases, ops, profile, nthreads, rounds, seed):
+    """Derivation from a shared, freshly created object while other threads read it for the
+    first time.  For every base program (and round) one new object is created; after a barrier
+    the even threads repeatedly apply their modifier to it (and observe the last result), the
+    odd threads read every accessor of the shared object in a random order.  Returns
+    [[per thread: observation or exception] per base] of the last round; thread t uses
+    ops[(t // 2 + i) % len(ops)]."""
+    import random
+    import sys
+    import threading
+    import yarl
+    old = sys.getswitchinterval()
+    sys.setswitchinterval(1e-6)
+    nb = len(bases)
+    results = [[None] * nthreads for _ in range(nb)]
+    cur = [None]
+    gate = threading.Barrier(nthreads + 1)
+    done = threading.Barrier(nthreads + 1)
+
+    def reader_obs(u, rng):
+        fs = [lambda: str(u), lambda: u.raw_user, lambda: u.raw_password, lambda: u.raw_host, lambda: u.explicit_port,
+              lambda: u.port, lambda: u.raw_path, lambda: u.host_subcomponent, lambda: u.host_port_subcomponent,
+              lambda: u.raw_parts, lambda: u.raw_name, lambda: u.raw_suffix, lambda: u.raw_suffixes, lambda: u.raw_path_qs,
+              lambda: u.user, lambda: u.password, lambda: u.host, lambda: u.path, lambda: u.path_safe, lambda: u.query_string,
+              lambda: u.query, lambda: u.fragment, lambda: u.parts, lambda: u.name, lambda: u.suffix, lambda: u.suffixes,
+              lambda: u.authority, lambda: u.path_qs, lambda: u.parent, lambda: u.origin() if u.absolute and u.scheme else None,
+              lambda: hash(u), lambda: u.absolute, lambda: u.scheme, lambda: u.raw_authority, lambda: u.raw_query_string]
+        rng.shuffle(fs)
+        for f in fs:
+            f()
+        return _obs(u, profile)
+
+    def worker(tid):
+        rng = random.Random(seed * 7919 + tid)
+        for r in range(rounds):
+            for i in range(nb):
+                gate.wait()
+                u = cur[0]
+                from proto import Exn
+                keep = isinstance(results[i][tid], Exn) and results[i][tid].name not in ("ValueError", "TypeError")
+                try:
+                    if u is None:
+                        res = None
+                    elif tid % 2 == 0:
+                        op = ops[(tid // 2 + i) % len(ops)]
+                        v = None
+                        for _ in range(12):
+                            v = apply_op(u, op[1], op[2:])
+                        res = _obs(v, profile)
+                    else:
+                        res = reader_obs(u, rng)
+                except BaseException as e:  # noqa: B902
+                    res = _exn(e)
+                if not keep:          # a foreign exception of an earlier round stays recorded
+                    results[i][tid] = res
+                done.wait()
+    ths = [threading.Thread(target=worker, args=(t,)) for t in range(nthreads)]
+    for t in ths:
+        t.start()
+    for r in range(rounds):
+        for i in range(nb):
+            yarl.cache_clear()
+            try:
+                cur[0] = run_prog(bases[i])[-1]
+            except BaseException:  # noqa: B902
+                cur[0] = None
+            gate.wait()
+            done.wait()
+    for t in ths:
+        t.join()
+    sys.setswitchinterval(old)
+    return results
+
+
 def threads_run(progs, profile, nthreads, rounds, seed):
     """Every thread runs every program (in its own order, [rounds] times) against the shared
     module-level caches while another thread clears / reconfigures them; returns, per thread,
@@ -425,6 +499,7 @@ def threads_run(progs, profile, nthreads, rounds, seed):
 def register(fn):
     fn(history_run)
     fn(threads_run)
+    fn(threads_derive)
     fn(query_arg_immutable)
     fn(oom_sweep)
     fn(oom_url_sweep)
